@@ -132,8 +132,46 @@ def _reaches_ops(s):
     return out
 
 
+JANUS_SCALES = ('r.ri_janus.scale_pos', 'r.ri_janus.scale_vel')
+
+
 def run(scheme, flags, actions=('step',)):
-    """Execute actions; returns (interp, list of per-action trace slices)."""
+    """Execute actions; returns (interp, list of per-action trace slices).
+
+    JANUS converts between physical and integer units with two scale members. They are normally handed to the operators as
+    separate arguments (read as access paths, R10.3 compares them across call sites). If the conversion is folded into the
+    step-size argument instead, the coefficients no longer fold with the scales unknown; the step is then executed with
+    both scales = 1 (every unit conversion is a monomial in the scales, so this gives the scale-free coefficients all
+    rules are written for) and twice more with distinct scales: the factor by which an operator's coefficient changes has
+    to be the same at all of its call sites. The result of that probe is attached to the interpreter (it.scale_probe)."""
+    try:
+        return _run(scheme, flags, actions)
+    except AnalysisError as ex:
+        if scheme != 'janus' or 'does not fold' not in str(ex) or any(k in flags for k in JANUS_SCALES):
+            raise
+    base = dict(flags)
+    base.update({JANUS_SCALES[0]: 1, JANUS_SCALES[1]: 1})
+    it, slices = _run(scheme, base, actions)
+    probe = []
+    for sp_, sv_ in ((3, 7), (5, 11)):
+        f2 = dict(flags)
+        f2.update({JANUS_SCALES[0]: sp_, JANUS_SCALES[1]: sv_})
+        it2, _ = _run(scheme, f2, actions)
+        ratios = {}
+        for (nm, args, line), (nm2, args2, line2) in zip(it.raw, it2.raw):
+            if nm != nm2 or nm not in ('drift', 'kick'):
+                continue
+            a1 = [a for a in args if isinstance(a, x4.Poly)]
+            a2 = [a for a in args2 if isinstance(a, x4.Poly)]
+            if not a1 or not a2 or a1[0].coef(1) == 0:
+                continue
+            ratios.setdefault(nm, []).append((a2[0].coef(1) / a1[0].coef(1), line))
+        probe.append(((sp_, sv_), ratios))
+    it.scale_probe = probe
+    return it, slices
+
+
+def _run(scheme, flags, actions=('step',)):
     s = SCHEMES[scheme]
     it = interp(scheme, flags)
     slices = []
